@@ -324,11 +324,16 @@ def chunks(lst, n):
 # ---------------------------------------------------------------------------
 
 def load_known():
-    path = os.path.join(VERIF, "known_findings.json")
-    if not os.path.exists(path):
-        return []
-    with open(path) as f:
-        return json.load(f).get("findings", [])
+    out = []
+    paths = [os.path.join(VERIF, "known_findings.json")]
+    kd = os.path.join(VERIF, "known")
+    if os.path.isdir(kd):
+        paths += [os.path.join(kd, f) for f in sorted(os.listdir(kd)) if f.endswith(".json")]
+    for path in paths:
+        if os.path.exists(path):
+            with open(path) as f:
+                out.extend(json.load(f).get("findings", []))
+    return out
 
 
 class Verdict(object):
